@@ -1,0 +1,80 @@
+//go:build verif
+
+package prc
+
+import "sort"
+
+// Accessors for the verification harness in /verif (build tag verif only): a sharedStreamProcess
+// over a stream supplied by the harness (an in-memory stream that records batches and can fail on
+// demand), the receiver loop over such a stream, and read-only views of the gate and of the open
+// streams. Nothing here is reachable from a normal build.
+
+// VerifStream is what the harness implements: the three transport operations of sharedStream.
+type VerifStream interface {
+	Send(*SharedMessage) error
+	Recv() (*SharedMessage, error)
+	Close()
+}
+
+// verifStream is built exactly like clientStream / serverStream: the embedded
+// sharedStreamProcess is the real one, only the transport is the harness's.
+type verifStream struct {
+	*sharedStreamProcess
+	transport VerifStream
+}
+
+func (v *verifStream) Send(message *SharedMessage) error { return v.transport.Send(message) }
+func (v *verifStream) Recv() (*SharedMessage, error)     { return v.transport.Recv() }
+func (v *verifStream) Close()                            { v.transport.Close() }
+
+// VerifStreamProcess is the harness's handle on one stream (process + transport).
+type VerifStreamProcess struct {
+	stream *verifStream
+	shared *Shared
+}
+
+// VerifNewStreamProcess creates the stream process of peer `address` over the given transport,
+// the way newClientStream / newServerStream do.
+func (s *Shared) VerifNewStreamProcess(address PhysicalAddress, transport VerifStream) *VerifStreamProcess {
+	st := &verifStream{transport: transport}
+	st.sharedStreamProcess = newSharedStreamProcess(address, st, s)
+	return &VerifStreamProcess{stream: st, shared: s}
+}
+
+// Process is the process a resolver hands out for the peer (what ProcessId caches).
+func (p *VerifStreamProcess) Process() Process { return p.stream }
+
+// Attach stores the stream as the open stream of its peer (what streaming does first).
+func (p *VerifStreamProcess) Attach() { p.shared.attachStream(p.stream.address, p.stream) }
+
+// Gate reads the activation state and the number of queued delivery messages.
+func (p *VerifStreamProcess) Gate() (active bool, queued int) {
+	c := p.stream.sharedStreamProcess
+	c.lock.RLock()
+	queued = len(c.batches)
+	c.lock.RUnlock()
+	return c.state.Load() == sharedStreamProcessStateActive, queued
+}
+
+// VerifStreaming runs the receiver loop of this node over the stream (returns when Recv fails,
+// reports io.EOF or a Farewell arrives), exactly as open / StreamHandler start it.
+func (s *Shared) VerifStreaming(p *VerifStreamProcess) error {
+	return s.streaming(p.stream.address, p.stream)
+}
+
+// VerifStreams lists the peers that currently have an open stream, sorted.
+func (s *Shared) VerifStreams() []PhysicalAddress {
+	var out []PhysicalAddress
+	s.streams.Range(func(key PhysicalAddress, _ sharedStream) bool {
+		out = append(out, key)
+		return true
+	})
+	sort.Strings(out)
+	return out
+}
+
+// VerifState reads the sharing state (0 closed, 1 sharing, 2 shared, 3 closing, 4 dead).
+func (s *Shared) VerifState() uint32 { return s.state.Load() }
+
+// VerifBatchLimit is the batch limit of the sender loop.
+const VerifBatchLimit = sharedStreamBatchLimit
